@@ -591,6 +591,17 @@ impl StakeKeeper {
                     match delegation {
                         Some(delegation) if delegation.amount.is_zero() => {
                             STAKES.remove(&mut staking_storage, (&delegator, &validator));
+                            // the removed delegator must not stay in the validator's staker set
+                            if let Some(mut validator_info) =
+                                VALIDATOR_INFO.may_load(&staking_storage, &validator)?
+                            {
+                                validator_info.stakers.remove(&delegator);
+                                VALIDATOR_INFO.save(
+                                    &mut staking_storage,
+                                    &validator,
+                                    &validator_info,
+                                )?;
+                            }
                         }
                         None => STAKES.remove(&mut staking_storage, (&delegator, &validator)),
                         _ => {}
